@@ -1087,7 +1087,8 @@ def run_peer_change(ctx, op):
             prog['effects'].insert(0, {'t': k, 'text': new})
         ch.update(applied='yes', how=op['how'],
                   test='test_stdout' if k == 'out' else 'test_stderr',
-                  what='%s %r -> %r' % (k, text[:200], new[:200]))
+                  what='%s %r -> %r' % (k, ctx.W.scrub(text)[:200],
+                                        ctx.W.scrub(new)[:200]))
         ctx.stats['faults']['peer_%s_%s' % (k, op['how'])] += 1
     elif k in ('file', 'file_missing'):
         if not files:
@@ -1147,8 +1148,9 @@ def run_peer_change(ctx, op):
             if new is None:
                 return
             ch.update(applied='yes', how=op['how'], test=test,
-                      what='file %s %r -> %r' % (f['path'], f['text'][:200],
-                                                 new[:200]))
+                      what='file %s %r -> %r' % (
+                          f['path'], ctx.W.scrub(f['text'])[:200],
+                          ctx.W.scrub(new)[:200]))
             f['text'] = new
             ctx.stats['faults']['peer_file_' + op['how']] += 1
     ctx.nontrivial = True
